@@ -611,6 +611,12 @@ pub fn subscription_graph_cases(rng: &mut Rng, n: usize) -> Vec<GDoc> {
 
 /// the same over a subscription root type `root` with fields `f1`, `f2` (type conditions name `root`)
 pub fn subscription_graph_cases_on(rng: &mut Rng, n: usize, root: &str, f1: &str, f2: &str) -> Vec<GDoc> {
+    subscription_graph_cases_tcs(rng, n, f1, f2, &[root])
+}
+
+/// the same with the type condition of every fragment (and of the inline wrappers) drawn from
+/// `tcs`: the root type, interfaces it implements, unions that contain it, unrelated types
+pub fn subscription_graph_cases_tcs(rng: &mut Rng, n: usize, f1: &str, f2: &str, tcs: &[&str]) -> Vec<GDoc> {
     let fld = |alias: Option<&str>, name: &str| GSel::Field { alias: alias.map(|x| x.to_string()), name: name.into(), args: vec![], dirs: vec![], sels: vec![] };
     let atoms: Vec<GSel> = vec![fld(None, f1), fld(None, f2), fld(Some(f1), f2), fld(Some("k"), f1), fld(None, "__typename")];
     let mut out = vec![];
@@ -625,7 +631,7 @@ pub fn subscription_graph_cases_on(rng: &mut Rng, n: usize, root: &str, f1: &str
                     sels.push(pick(rng));
                 }
                 let sp = GSel::Spread { name: format!("F{}", t), dirs: vec![] };
-                sels.push(if rng.pct(25) { GSel::Inline { tc: None, dirs: vec![], sels: vec![sp] } } else { sp });
+                sels.push(if rng.pct(25) { GSel::Inline { tc: if tcs.len() > 1 && rng.pct(60) { Some(tcs[rng.below(tcs.len())].to_string()) } else { None }, dirs: vec![], sels: vec![sp] } } else { sp });
             }
             if rng.pct(60) || sels.is_empty() {
                 sels.push(pick(rng));
@@ -650,7 +656,7 @@ pub fn subscription_graph_cases_on(rng: &mut Rng, n: usize, root: &str, f1: &str
                     }
                 }
             }
-            defs.push(GDef::Frag { name: format!("F{}", f), tc: root.into(), dirs: vec![], sels: body(rng, targets) });
+            defs.push(GDef::Frag { name: format!("F{}", f), tc: tcs[rng.below(tcs.len())].into(), dirs: vec![], sels: body(rng, targets) });
         }
         out.push(GDoc(defs));
     }
@@ -1559,6 +1565,7 @@ pub fn rewrite_source_pool(rng: &mut Rng) -> Vec<GDoc> {
     out.extend(pick_sample(merge_exclusive_fragment_cases(), 300, rng));
     out.extend(merge_shared_subfragment_cases());
     out.extend(merge_argument_cases());
+    out.extend(merge_argument_order_cases());
     out.extend(enum_pair_cases());
     out.extend(small_object_cases());
     out.extend(operation_mix_cases(rng, 300));
@@ -1633,6 +1640,192 @@ pub fn directive_argument_cases() -> Vec<GDoc> {
                 ]));
             }
         }
+    }
+    out
+}
+
+/// C05: same response key, same field, SEVERAL arguments: the same set in another order (mergeable),
+/// values swapped between the arguments, one argument missing / extra, one value different — the
+/// second field direct, in a fragment, or under a mutually exclusive parent (never a conflict there)
+pub fn merge_argument_order_cases() -> Vec<GDoc> {
+    let i = |n: i64| GValue::Int(n);
+    let a = |kv: Vec<(&str, GValue)>| -> Vec<(String, GValue)> { kv.into_iter().map(|(k, v)| (k.to_string(), v)).collect() };
+    let base = a(vec![("y", i(1)), ("z", i(2)), ("ln", GValue::List(vec![i(3)]))]);
+    let variants: Vec<Vec<(String, GValue)>> = vec![
+        a(vec![("y", i(1)), ("z", i(2)), ("ln", GValue::List(vec![i(3)]))]),
+        a(vec![("z", i(2)), ("y", i(1)), ("ln", GValue::List(vec![i(3)]))]),
+        a(vec![("ln", GValue::List(vec![i(3)])), ("z", i(2)), ("y", i(1))]),
+        a(vec![("y", i(2)), ("z", i(1)), ("ln", GValue::List(vec![i(3)]))]),
+        a(vec![("z", i(1)), ("y", i(2)), ("ln", GValue::List(vec![i(3)]))]),
+        a(vec![("y", i(1)), ("ln", GValue::List(vec![i(3)]))]),
+        a(vec![("ln", GValue::List(vec![i(3)])), ("y", i(1))]),
+        a(vec![("y", i(1)), ("z", i(2)), ("ln", GValue::List(vec![i(3)])), ("d", i(1))]),
+        a(vec![("d", i(1)), ("ln", GValue::List(vec![i(3)])), ("z", i(2)), ("y", i(1))]),
+        a(vec![("y", i(1)), ("z", GValue::Var("v".into())), ("ln", GValue::List(vec![i(3)]))]),
+        a(vec![("z", GValue::Var("v".into())), ("ln", GValue::List(vec![i(3)])), ("y", i(1))]),
+        a(vec![("y", i(1)), ("z", i(2)), ("ln", GValue::List(vec![i(3), i(3)]))]),
+    ];
+    let leaf = || GSel::Field { alias: None, name: "id".into(), args: vec![], dirs: vec![], sels: vec![] };
+    let fld = |args: Vec<(String, GValue)>| GSel::Field { alias: Some("k".into()), name: "arg2".into(), args, dirs: vec![], sels: vec![leaf()] };
+    let lf = |args: Vec<(String, GValue)>| GSel::Field { alias: Some("k".into()), name: "leafArg".into(), args, dirs: vec![], sels: vec![] };
+    let mut out = vec![];
+    let vars = vec![GVar { name: "v".into(), ty: GType::Named("Int".into()), default: None }];
+    let mut all: Vec<(Vec<(String, GValue)>, Vec<(String, GValue)>)> = vec![];
+    for v in &variants {
+        all.push((base.clone(), v.clone()));
+        all.push((v.clone(), variants[1].clone()));
+    }
+    for (x, y) in all {
+        for place in 0..4usize {
+            let mut defs = vec![];
+            let sels = match place {
+                0 => vec![GSel::Field { alias: None, name: "a".into(), args: vec![], dirs: vec![], sels: vec![fld(x.clone()), fld(y.clone())] }],
+                1 => {
+                    defs.push(GDef::Frag { name: "F".into(), tc: "A".into(), dirs: vec![], sels: vec![fld(y.clone())] });
+                    vec![GSel::Field { alias: None, name: "a".into(), args: vec![], dirs: vec![], sels: vec![fld(x.clone()), GSel::Spread { name: "F".into(), dirs: vec![] }] }]
+                }
+                2 => vec![GSel::Field { alias: None, name: "node".into(), args: vec![], dirs: vec![], sels: vec![
+                    GSel::Inline { tc: Some("A".into()), dirs: vec![], sels: vec![fld(x.clone())] },
+                    GSel::Inline { tc: Some("A".into()), dirs: vec![], sels: vec![GSel::Inline { tc: None, dirs: vec![], sels: vec![fld(y.clone())] }] }] }],
+                _ => vec![GSel::Field { alias: None, name: "node".into(), args: vec![], dirs: vec![], sels: vec![
+                    GSel::Inline { tc: Some("A".into()), dirs: vec![], sels: vec![fld(x.clone())] },
+                    GSel::Inline { tc: Some("B".into()), dirs: vec![], sels: vec![GSel::Field { alias: Some("k".into()), name: "arg2".into(), args: vec![("q".to_string(), i(1))], dirs: vec![], sels: vec![leaf()] }] }] }],
+            };
+            defs.insert(0, GDef::Op { kind: OpKind::Query, name: Some("Q".into()), vars: vars.clone(), dirs: vec![], sels });
+            out.push(GDoc(defs));
+        }
+    }
+    // two-argument leaf field: both orders, swapped values
+    for (x, y) in [
+        (a(vec![("x", i(1)), ("y", i(2))]), a(vec![("y", i(2)), ("x", i(1))])),
+        (a(vec![("x", i(1)), ("y", i(2))]), a(vec![("x", i(2)), ("y", i(1))])),
+        (a(vec![("x", i(1)), ("y", i(2))]), a(vec![("y", i(1)), ("x", i(2))])),
+        (a(vec![("y", i(2)), ("x", i(1))]), a(vec![("x", i(1)), ("y", i(2))])),
+    ] {
+        out.push(GDoc(vec![GDef::Op { kind: OpKind::Query, name: Some("Q".into()), vars: vars.clone(), dirs: vec![], sels: vec![GSel::Field { alias: None, name: "a".into(), args: vec![], dirs: vec![], sels: vec![lf(x.clone()), lf(y.clone())] }] }]));
+    }
+    out
+}
+
+/// C01 / C07, valid by construction: 2..3 operations over a DAG of 2..5 fragments on Query; every
+/// fragment uses at most one variable (own aliased field) and spreads later fragments (diamonds,
+/// shared sub-fragments); every operation declares exactly the variables its spreads reach and
+/// every fragment is reached by some operation.  Whatever a variable rule remembers from one
+/// operation (or one path) must not leak into the next.
+pub fn valid_variable_dag_cases(rng: &mut Rng, n: usize) -> Vec<GDoc> {
+    let mut out = vec![];
+    for _ in 0..n {
+        let k = rng.range(2, 5);
+        let nv = rng.range(1, 3);
+        let mut edges: Vec<Vec<usize>> = vec![vec![]; k];
+        let mut uses: Vec<Option<usize>> = vec![None; k];
+        for f in 0..k {
+            for g in (f + 1)..k {
+                if rng.pct(55) {
+                    edges[f].push(g);
+                }
+            }
+            if rng.pct(65) || edges[f].is_empty() {
+                uses[f] = Some(rng.below(nv));
+            }
+        }
+        // closure of variables reached from a fragment
+        let mut reach_vars: Vec<Vec<bool>> = vec![vec![false; nv]; k];
+        let mut reach_frags: Vec<Vec<bool>> = vec![vec![false; k]; k];
+        for f in (0..k).rev() {
+            reach_frags[f][f] = true;
+            if let Some(v) = uses[f] {
+                reach_vars[f][v] = true;
+            }
+            for &g in &edges[f].clone() {
+                for v in 0..nv {
+                    if reach_vars[g][v] {
+                        reach_vars[f][v] = true;
+                    }
+                }
+                for h in 0..k {
+                    if reach_frags[g][h] {
+                        reach_frags[f][h] = true;
+                    }
+                }
+            }
+        }
+        let nops = rng.range(2, 3);
+        let mut op_roots: Vec<Vec<usize>> = (0..nops).map(|_| { let m = rng.range(1, 3); (0..m).map(|_| rng.below(k)).collect() }).collect();
+        // every fragment must be reached by some operation
+        for f in 0..k {
+            if !op_roots.iter().any(|rs| rs.iter().any(|&r| reach_frags[r][f])) {
+                let o = rng.below(nops);
+                op_roots[o].push(f);
+            }
+        }
+        let mut defs = vec![];
+        let mut op_defs = vec![];
+        for (o, roots) in op_roots.iter().enumerate() {
+            let mut dedup: Vec<usize> = vec![];
+            for r in roots {
+                if !dedup.contains(r) {
+                    dedup.push(*r);
+                }
+            }
+            let mut vars = vec![];
+            for v in 0..nv {
+                if dedup.iter().any(|&r| reach_vars[r][v]) {
+                    vars.push(GVar { name: format!("v{}", v), ty: GType::Named("Int".into()), default: None });
+                }
+            }
+            let mut sels: Vec<GSel> = dedup.iter().map(|r| GSel::Spread { name: format!("F{}", r), dirs: vec![] }).collect();
+            if rng.pct(40) {
+                sels.insert(rng.below(sels.len() + 1), GSel::Field { alias: Some(format!("own{}", o)), name: "f_Int_0".into(), args: vec![], dirs: vec![], sels: vec![] });
+            }
+            op_defs.push(GDef::Op { kind: OpKind::Query, name: Some(format!("Op{}", o)), vars, dirs: vec![], sels });
+        }
+        let mut frag_defs = vec![];
+        for f in 0..k {
+            let mut sels: Vec<GSel> = vec![];
+            if let Some(v) = uses[f] {
+                sels.push(GSel::Field { alias: Some(format!("x{}", f)), name: "f_Int_0".into(), args: vec![("a".to_string(), GValue::Var(format!("v{}", v)))], dirs: vec![], sels: vec![] });
+            }
+            for &g in &edges[f] {
+                let sp = GSel::Spread { name: format!("F{}", g), dirs: vec![] };
+                sels.push(if rng.pct(20) { GSel::Inline { tc: None, dirs: vec![], sels: vec![sp] } } else { sp });
+            }
+            if sels.is_empty() {
+                sels.push(GSel::Field { alias: None, name: "__typename".into(), args: vec![], dirs: vec![], sels: vec![] });
+            }
+            // order of usage and spreads varies
+            if rng.pct(50) {
+                sels.reverse();
+            }
+            frag_defs.push(GDef::Frag { name: format!("F{}", f), tc: "Query".into(), dirs: vec![], sels });
+        }
+        // definitions in a random interleaving
+        let mut all: Vec<GDef> = op_defs;
+        all.extend(frag_defs);
+        for a in (1..all.len()).rev() {
+            if rng.pct(50) {
+                let b = rng.below(a + 1);
+                all.swap(a, b);
+            }
+        }
+        defs.extend(all);
+        out.push(GDoc(defs));
+    }
+    out
+}
+
+/// C06 (and C02 through the default plan): a fragment whose type condition is a type of EVERY kind
+/// (object, interface, union, enum, scalar, input object, unknown), inline and as a definition,
+/// with a body that no other rule can object to (`__typename`)
+pub fn fragment_condition_cases(si: &SchemaInfo) -> Vec<String> {
+    let mut names: Vec<String> = si.types().iter().map(|t| crate::gen::tname(t).to_string()).collect();
+    names.push("ZzUnknownType".to_string());
+    let mut out = vec![];
+    for t in &names {
+        out.push(format!("{{ __typename ... on {} {{ __typename }} }}", t));
+        out.push(format!("{{ x: __typename ... on {} {{ ... {{ y: __typename }} }} }}", t));
+        out.push(format!("{{ __typename ...F }} fragment F on {} {{ __typename }}", t));
+        out.push(format!("{{ ... {{ ... on {} @skip(if: true) {{ __typename }} }} }}", t));
     }
     out
 }
